@@ -668,3 +668,12 @@ def rules(chk: Check) -> None:
     r06_4(chk)
     r06_5(chk)
     r06_6(chk)
+    # R06.7: the sound speeds that classify a wall (v- = min(vw, cs-), the Jouguet condition) are those of their own phase, frozen at
+    # that phase's own range ends (branch rules of csqHighT / csqLowT shared with C10 R10.1)
+    from ..core import Remap
+    from . import c10
+    c10.rules(Remap(chk, {"R10.1": "R06.7"}, only=lambda r, k, w: "|csq" in k))
+    chk.floor("R06.7", 8)
+    # R06.8: every branch that depends on the side of the Jouguet velocity is decided with the model's own vJ
+    from .shared import own_jouguet_velocity
+    own_jouguet_velocity(chk, "R06.8")
